@@ -10,6 +10,7 @@ package bigbuff
 
 import (
 	"context"
+	"errors"
 	"time"
 )
 
@@ -23,10 +24,19 @@ func init() {
 			var opts []ExclusiveOption
 			opts = append(opts, ExclusiveKey(key))
 			ran := make(chan struct{}, 4)
+			workDone := make(chan struct{})
 			opts = append(opts, ExclusiveWork(func(resolve func(interface{}, error)) {
 				ran <- struct{}{} // returns without calling resolve
+				close(workDone)
 			}))
-			shape := i % 4
+			shape := i % 5
+			if shape == 4 {
+				// the limiter's context is cancelled during the cool-down after the work function returned: the answer is still
+				// the resolve-not-called error (an outcome of the execution), not the limiter context's error, which no
+				// execution produced
+				rate = time.Duration(20+h.rng.Intn(30)) * time.Millisecond
+				opts = append(opts, ExclusiveRateLimit(ctx, rate))
+			}
 			if shape == 0 || shape == 2 {
 				opts = append(opts, ExclusiveRateLimit(ctx, rate))
 			}
@@ -40,13 +50,23 @@ func init() {
 			}
 			h.rng.Shuffle(len(opts)-1, func(a, b int) { opts[a+1], opts[b+1] = opts[b+1], opts[a+1] })
 			out := e.CallWithOptions(opts...)
+			if shape == 4 {
+				select {
+				case <-workDone:
+				case <-time.After(3 * time.Second):
+				}
+				cancel()
+			}
 			var first *ExclusiveOutcome
 			select {
 			case first = <-out:
 			case <-time.After(3 * time.Second):
-				h.line("MONITOR C10 a call whose work function returned without resolving was never answered (3 s; options shape %d: 0 rate limit with a live context, 1 pass-through wrapper, 2 both, 3 rate limit + wait; rate %v; case %d): expected the resolve-not-called error", shape, rate, i)
+				h.line("MONITOR C10 a call whose work function returned without resolving was never answered (3 s; options shape %d: 0 rate limit with a live context, 1 pass-through wrapper, 2 both, 3 rate limit + wait, 4 rate limit cancelled during the cool-down; rate %v; case %d): expected the resolve-not-called error", shape, rate, i)
 				cancel()
 				return
+			}
+			if shape == 4 && first != nil && (errors.Is(first.Error, context.Canceled) || errors.Is(first.Error, context.DeadlineExceeded)) {
+				h.line("MONITOR C10 a call whose work function returned without resolving was answered with the rate limiter's context error (the context was cancelled during the cool-down): an outcome that no execution produced, expected the resolve-not-called error (case %d)", i)
 			}
 			if first == nil || first.Error == nil {
 				h.line("MONITOR C10 a call whose work function returned without resolving was answered without an error (shape %d, case %d)", shape, i)
